@@ -103,6 +103,135 @@ Proof.
   congruence.
 Qed.
 
+(* ---------------------------------------------------------------- the temporary file -------- *)
+(* WriteFile = open a temporary sibling, write, chmod, rename onto `to` (Model: write_in_dir).  With a
+   temporary name NOBODY HAS this is exactly the atomic step the tree theorems are about. *)
+Lemma remove_set_fresh t v es : assoc t es = None -> remove t (set t v es) = es.
+Proof.
+  induction es as [|[y w] r IH]; cbn [assoc set remove].
+  - now rewrite str_eqb_refl.
+  - destruct (str_eqb t y) eqn:E; [discriminate|]. intros H. cbn [remove]. rewrite E. now rewrite IH.
+Qed.
+
+(* EVERY directory, EVERY file name x, EVERY unused temporary name t *)
+Theorem write_in_dir_unique t m x c es :
+  assoc t es = None -> t <> x ->
+  write_in_dir t TempUnique m x c es =
+  match f_rename (File 0 (eff m) c) (assoc x es) with
+  | ROk v => ROk (Dir (set x v es))
+  | r => r
+  end.
+Proof.
+  intros Ht Hx. unfold write_in_dir. rewrite Ht. cbn [open_temp].
+  rewrite assoc_set_other by (intros E; apply Hx; now symmetry).
+  now rewrite remove_set_fresh by exact Ht.
+Qed.
+
+(* ANY fixed naming scheme pre ++ file ++ suf (opened over what is there) takes a sibling of that name
+   away: the sibling's inode j - a file of the tree being copied, for a hard-linked copy the SOURCE's
+   own inode - is emptied, filled with the other file's contents and renamed onto `to`. *)
+Theorem fixed_temp_loses_sibling pre suf m x c j pm c0 :
+  pre ++ x ++ suf <> x ->
+  write_in_dir (pre ++ x ++ suf) (TempFixed pre suf) m x c [(pre ++ x ++ suf, File j pm c0)]
+  = ROk (Dir [(x, File j (eff m) c)]).
+Proof.
+  intros Ht. unfold write_in_dir. cbn [assoc]. rewrite str_eqb_refl. cbn [open_temp set]. rewrite str_eqb_refl.
+  cbn [assoc]. assert (str_eqb x (pre ++ x ++ suf) = false) as E by (apply str_eqb_neq; congruence).
+  rewrite E. cbn [f_rename remove]. rewrite str_eqb_refl. reflexivity.
+Qed.
+
+Lemma assoc_some_len x es n : assoc x es = Some n -> (length x <= name_lengths es)%nat.
+Proof.
+  induction es as [|[y w] r IH]; cbn [assoc name_lengths fold_right fst]; [discriminate|].
+  destruct (str_eqb x y) eqn:E.
+  - apply str_eqb_eq in E. subst y. intros _. lia.
+  - intros H. apply IH in H. unfold name_lengths in H. lia.
+Qed.
+
+Lemma unique_temp_fresh x es : assoc (unique_temp x es) es = None.
+Proof.
+  destruct (assoc (unique_temp x es) es) eqn:E; [|reflexivity]. apply assoc_some_len in E.
+  unfold unique_temp in E. rewrite app_length, repeat_length in E. lia.
+Qed.
+
+Lemma unique_temp_neq x es : unique_temp x es <> x.
+Proof.
+  intros E. apply (f_equal (@length N)) in E. unfold unique_temp in E. rewrite app_length, repeat_length in E. lia.
+Qed.
+
+Lemma f_write_unique m x c d :
+  f_write TempUnique m x c d = upd true [x] (f_rename (File 0 (eff m) c)) d.
+Proof.
+  destruct d as [[i pm c0|es|t]|]; cbn [f_write upd temp_name]; try reflexivity.
+  - rewrite write_in_dir_unique by (apply unique_temp_fresh || apply unique_temp_neq).
+    destruct (f_rename (File 0 (eff m) c) (assoc x es)); reflexivity.
+  - rewrite write_in_dir_unique by (apply unique_temp_fresh || apply unique_temp_neq). reflexivity.
+Qed.
+
+Lemma upd_ext mk f g : (forall d, f d = g d) -> forall p d, upd mk p f d = upd mk p g d.
+Proof.
+  intros H. induction p as [|x q IH]; intros d; cbn [upd]; [apply H|].
+  destruct d as [[i pm c|es|t]|]; try reflexivity; now rewrite IH.
+Qed.
+
+Lemma upd_app mk q x f : forall d, upd mk (q ++ [x]) f d = upd mk q (upd mk [x] f) d.
+Proof.
+  remember (upd mk [x] f) as g eqn:Hg.
+  induction q as [|y q IH]; intros d; [now subst g|]. change ((y :: q) ++ [x]) with (y :: (q ++ [x])).
+  destruct d as [[i pm c|es|t]|]; cbn [upd]; try reflexivity; now rewrite IH.
+Qed.
+
+Lemma split_last_app : forall p q x, split_last p = Some (q, x) -> p = q ++ [x].
+Proof.
+  induction p as [|y p IH]; intros q x; cbn [split_last]; [discriminate|].
+  destruct (split_last p) as [[q' z]|] eqn:E.
+  - intros H. injection H as <- <-. cbn [app]. f_equal. now apply IH.
+  - intros H. injection H as <- <-. destruct p as [|z p]; [reflexivity|]. cbn [split_last] in E.
+    destruct (split_last p) as [[? ?]|]; discriminate.
+Qed.
+
+(* the policy the code has, TRANSLATED from `tempFile, err := ...` in fs.go *)
+Lemma temp_policy_unique : temp_policy_now = TempUnique.
+Proof. reflexivity. Qed.
+
+(* CopyFile as it runs (temporary sibling and rename, any depth, any directory contents) IS the atomic
+   step: nothing but `to` changes in its directory, no sibling is touched, no inode that existed
+   before is written *)
+Theorem copy_file_refines m p c d : copy_file m p c d = copy_file_atomic m p c d.
+Proof.
+  unfold copy_file. destruct (split_last p) as [[q x]|] eqn:E; [|reflexivity].
+  apply split_last_app in E. subst p. unfold copy_file_atomic. rewrite upd_app, temp_policy_unique.
+  apply upd_ext. intros d'. apply f_write_unique.
+Qed.
+
+(* copy_or_link with the atomic step (what the tree proofs unfold) *)
+Definition copy_or_link_a (k : cfg) (p : path) (src : node) (o : opened) (d : dest) : R :=
+  let copy (m : N) := match o with
+                      | OContent c => copy_file_atomic m p c d
+                      | OErr => RErr
+                      | OUnsup => RUnsup
+                      end in
+  if link k then
+    match src with
+    | Link t => upd false p (f_create (Link t)) d
+    | File i pm c =>
+        match (if link_ok k then upd false p (f_create (File i pm c)) d else RErr) with
+        | RErr => if fallback k then copy pm else RErr
+        | r => r
+        end
+    | Dir _ => RUnsup
+    end
+  else copy (mode k).
+
+Lemma copy_or_link_eq k p src o d : copy_or_link k p src o d = copy_or_link_a k p src o d.
+Proof.
+  unfold copy_or_link, copy_or_link_a. destruct o as [c| |]; try reflexivity.
+  destruct (link k); [|apply copy_file_refines].
+  destruct src as [i pm c0|es|t]; try reflexivity.
+  destruct (if link_ok k then upd false p (f_create (File i pm c0)) d else RErr); try reflexivity.
+  destruct (fallback k); [apply copy_file_refines | reflexivity].
+Qed.
+
 (* ---------------------------------------------------------------- one level down ------------ *)
 Definition lift (x : str) (es : list (str * node)) (r : R) : R :=
   match r with
@@ -120,7 +249,7 @@ Lemma visit_cons k x (e : path * node) es :
   visit k (pfx x e) (Some (Dir es)) = lift x es (visit k e (assoc x es)).
 Proof.
   destruct e as [q n]. unfold visit, pfx. cbn [fst snd]. destruct n as [i pm c|es'|t].
-  - unfold copy_or_link, copy_file.
+  - rewrite !copy_or_link_eq. unfold copy_or_link_a, copy_file_atomic.
     destruct (link k).
     + destruct (link_ok k).
       * rewrite upd_cons. destruct (upd false q _ (assoc x es)); cbn [lift]; try reflexivity.
@@ -166,7 +295,7 @@ Lemma visit_leaf_file k i pm c :
   placeable k = true ->
   visit k ([], File i pm c) None = ROk (file_result k i pm c).
 Proof.
-  destruct k as [m l f lo]. unfold placeable, visit, copy_or_link, copy_file, file_result.
+  destruct k as [m l f lo]. unfold placeable, visit. cbn [fst snd]. rewrite copy_or_link_eq. unfold copy_or_link_a, copy_file_atomic, file_result.
   cbn [link link_ok fallback mode fst snd upd f_create f_rename].
   destruct l, lo, f; cbn; intros H; try discriminate; reflexivity.
 Qed.
